@@ -40,18 +40,20 @@ type CliEnv struct {
 	ID     uint32
 	Origin uint32
 
-	mu       sync.Mutex
-	gateOn   bool
-	atRead   chan struct{}
-	atDone   chan struct{}
-	goRead   chan struct{}
-	goDone   chan struct{}
-	closing  bool
-	starting bool // NewClient has not returned yet
-	held     []J  // events of the starting client, recorded after ClientStart
-	Sink     *net.UDPConn
-	SinkPort int
-	Ungated bool // start the next client without the loop gates
+	mu      sync.Mutex
+	gateOn  bool
+	atRead  chan struct{}
+	atDone  chan struct{}
+	goRead  chan struct{}
+	goDone  chan struct{}
+	closing bool
+	// YieldExtra sees every yield point of the client first (driver-specific gates)
+	YieldExtra func(point string)
+	starting   bool // NewClient has not returned yet
+	held       []J  // events of the starting client, recorded after ClientStart
+	Sink       *net.UDPConn
+	SinkPort   int
+	Ungated    bool // start the next client without the loop gates
 	// Extra handles further hook events (sync round); it returns true if it did
 	Extra func(c *client.Client, ev string, args []interface{}) bool
 }
@@ -140,6 +142,9 @@ func (e *CliEnv) Install() {
 		e.mu.Unlock()
 		if !on || closing {
 			return
+		}
+		if e.YieldExtra != nil {
+			e.YieldExtra(p)
 		}
 		switch p {
 		case "loop:read":
